@@ -128,6 +128,8 @@ pzgstrf_thread_init(SuperMatrix *A, SuperMatrix *L, SuperMatrix *U,
     /* Identify relaxed supernodes at the bottom of the etree. */
     pxgstrf_relax = (pxgstrf_relax_t *)
         SUPERLU_MALLOC( (size_t) (n+2) * sizeof(pxgstrf_relax_t) );
+    if ( !pxgstrf_relax )
+	SUPERLU_ABORT("SUPERLU_MALLOC fails for pxgstrf_relax[]");
 
 #if 0
     if ( options->SymmetricMode == YES ) {
@@ -167,6 +169,8 @@ pzgstrf_thread_init(SuperMatrix *A, SuperMatrix *L, SuperMatrix *U,
     /* Prepare arguments to all threads. */
     pzgstrf_threadarg = (pzgstrf_threadarg_t *) 
         SUPERLU_MALLOC(nprocs * sizeof(pzgstrf_threadarg_t));
+    if ( !pzgstrf_threadarg )
+	SUPERLU_ABORT("SUPERLU_MALLOC fails for pzgstrf_threadarg[]");
     for (i = 0; i < nprocs; ++i) {
         pzgstrf_threadarg[i].pnum = i;
         pzgstrf_threadarg[i].info = 0;
